@@ -4,7 +4,7 @@
     name come from one build (same source and fingerprint) and are numbered 0..m-1.  The empty index is
     well-formed and every run of the command (either mode, either sub-command, failing or not) keeps it so
     ([C34_wf_on_every_history]); so the convergence theorem applies to every state reachable by the tool. *)
-From ZV Require Import Lib.Base Model.LocalSync Proofs.LocalSync Proofs.LocalSyncConv Proofs.LocalSyncMore Proofs.LocalSyncPartial.
+From ZV Require Import Lib.Base Model.LocalSync Proofs.LocalSync Proofs.LocalSyncConv Proofs.LocalSyncMore Proofs.LocalSyncPartial Proofs.LocalSyncDup.
 From Coq Require Import Permutation.
 
 (** If discovery fails — two discovered repositories would get the same name (E_DUP_NAME), one repository is
@@ -49,6 +49,65 @@ Theorem C34_discovered_names_distinct : forall tree roots specs,
   discover tree roots = Ok specs -> NoDup (map sp_name specs).
 Proof. exact discover_nodup. Qed.
 Print Assumptions C34_discovered_names_distinct.
+
+(** The same, said about what the walks report rather than about the result: [raw_discovered tree roots] is the
+    concatenation, in argument order, of what discoverRoot reports under each root.  Successful discovery returns all
+    of it (a permutation: nothing dropped or merged) and ALL its names and ALL its sources are pairwise distinct —
+    two repositories found under the SAME root are compared exactly like two found under different roots (the
+    seen-maps are threaded per entry, not per root). *)
+Theorem C34_discovered_all_and_distinct : forall tree roots specs,
+  discover tree roots = Ok specs ->
+  Permutation (raw_discovered tree roots) specs /\
+  NoDup (map sp_name (raw_discovered tree roots)) /\
+  NoDup (map sp_source (raw_discovered tree roots)).
+Proof. exact discover_ok_all_distinct. Qed.
+Print Assumptions C34_discovered_all_and_distinct.
+
+(** "If two discovered repositories would get the same name the command fails before changing the index", for ANY
+    two positions [s1], [s2] of the concatenated reports (inside one root's report or in two roots' reports): discovery
+    is an error, and in both modes no shard operation is performed, the index is unchanged, nothing is printed. *)
+Theorem C34_any_name_collision_fails_before_any_op : forall tree roots l1 s1 l2 s2 l3,
+  raw_discovered tree roots = l1 ++ s1 :: l2 ++ s2 :: l3 ->
+  sp_name s1 = sp_name s2 ->
+  exists e, discover tree roots = Err e /\ (e = E_DUP_NAME \/ e = E_DUP_SOURCE \/ e = E_ROOT) /\
+    forall m w inv,
+      shard_ops (r_ops (run_sync m tree w roots inv)) = [] /\
+      apply_ops inv (r_ops (run_sync m tree w roots inv)) = inv /\
+      r_out (run_sync m tree w roots inv) = [] /\ r_status (run_sync m tree w roots inv) = e.
+Proof. exact any_name_collision_fails. Qed.
+Print Assumptions C34_any_name_collision_fails_before_any_op.
+
+(** One directory reached through two (overlapping) roots: same. *)
+Theorem C34_any_source_collision_fails : forall tree roots l1 s1 l2 s2 l3,
+  raw_discovered tree roots = l1 ++ s1 :: l2 ++ s2 :: l3 ->
+  sp_source s1 = sp_source s2 ->
+  exists e, discover tree roots = Err e /\ (e = E_DUP_NAME \/ e = E_DUP_SOURCE \/ e = E_ROOT).
+Proof. exact any_source_collision_fails. Qed.
+Print Assumptions C34_any_source_collision_fails.
+
+(** The naming rule makes a bare repository "<q>/<x>.git" and a working tree "<q>/<x>" namesakes, whatever the
+    roots: ".git" is trimmed from the bare one's relative path. *)
+Theorem C34_bare_twin_same_name : forall root root' (q : list str) (x : str),
+  sp_name (spec_of root (q ++ [x ++ dot_git], true)) = sp_name (spec_of root' (q ++ [x], false)).
+Proof. exact bare_twin_same_name. Qed.
+Print Assumptions C34_bare_twin_same_name.
+
+(** Hence: if the walk of ONE root reports a working tree "<q>/<x>" and a bare "<q>/<x>.git" (in either order, at any
+    depth [q], whatever else is found and whichever roots come before or after), sync fails before any shard
+    operation in both modes. *)
+Theorem C34_same_root_twins_fail_before_any_op : forall tree before root after n q x l1 h1 l2 h2 l3,
+  lookup tree root = Some n ->
+  walk (last root []) [] n = l1 ++ h1 :: l2 ++ h2 :: l3 ->
+  (h1 = (q ++ [x], false) /\ h2 = (q ++ [x ++ dot_git], true)) \/
+  (h1 = (q ++ [x ++ dot_git], true) /\ h2 = (q ++ [x], false)) ->
+  exists e, discover tree (before ++ root :: after) = Err e /\ (e = E_DUP_NAME \/ e = E_DUP_SOURCE \/ e = E_ROOT) /\
+    forall m w inv,
+      shard_ops (r_ops (run_sync m tree w (before ++ root :: after) inv)) = [] /\
+      apply_ops inv (r_ops (run_sync m tree w (before ++ root :: after) inv)) = inv /\
+      r_out (run_sync m tree w (before ++ root :: after) inv) = [] /\
+      r_status (run_sync m tree w (before ++ root :: after) inv) = e.
+Proof. exact same_root_twins_fail. Qed.
+Print Assumptions C34_same_root_twins_fail_before_any_op.
 
 (** Convergence: if sync -f succeeds on a well-formed index, then afterwards (a) every discovered repository
     has its first shard, (b) EVERY shard in the index belongs to a discovered repository: it carries that
@@ -143,6 +202,28 @@ Example C34_nonvacuous_duplicate :
   discover tree [ [[114;49]%N]; [[114;50]%N] ] = Err E_DUP_NAME /\
   r_ops (run_sync Force tree ex_world [ [[114;49]%N]; [[114;50]%N] ] ex_inv) = [OpMkdirAll; OpLockFile].
 Proof. vm_compute. split; reflexivity. Qed.
+
+(** Non-vacuity (collision INSIDE one root): r1/team/proj (working tree) next to r1/team/proj.git (bare), plus an
+    unrelated r1/solo; a second, clean root r2.  Both are reported by the walk of r1, both are named "team/proj":
+    E_DUP_NAME and only the lock ops; the near-misses proj.git.git (named "team/proj.git") and proj2 are accepted. *)
+Definition ex_proj : str := [112;114;111;106]%N.            (* "proj" *)
+Definition ex_team : str := [116;101;97;109]%N.             (* "team" *)
+Definition ex_twin_tree (second : str) : node :=
+  NDir [ ([114;49]%N, NDir [ ([115;111;108;111]%N, NDir [ (dot_git, NDir []) ]);
+                             (ex_team, NDir [ (ex_proj, NDir [ (dot_git, NDir []) ]);
+                                              (second, NDir [ (objects_s, NDir []) ]) ]) ]);
+         ([114;50]%N, NDir [ ([122]%N, NDir [ (dot_git, NFile) ]) ]) ].
+Example C34_nonvacuous_duplicate_same_root :
+  let tree := ex_twin_tree (ex_proj ++ dot_git) in
+  let roots := [ [[114;49]%N]; [[114;50]%N] ] in
+  map sp_name (raw_discovered tree roots) =
+    [ [115;111;108;111]%N; ex_team ++ [47]%N ++ ex_proj; ex_team ++ [47]%N ++ ex_proj; [122]%N ] /\
+  discover tree roots = Err E_DUP_NAME /\
+  discover tree [ [[114;49]%N] ] = Err E_DUP_NAME /\
+  r_ops (run_sync Force tree ex_world roots ex_inv) = [OpMkdirAll; OpLockFile] /\
+  (exists specs, discover (ex_twin_tree (ex_proj ++ dot_git ++ dot_git)) roots = Ok specs /\ length specs = 4) /\
+  (exists specs, discover (ex_twin_tree (ex_proj ++ [50]%N ++ dot_git)) roots = Ok specs /\ length specs = 4).
+Proof. vm_compute. repeat split; try reflexivity; eexists; split; reflexivity. Qed.
 
 (** Non-vacuity (remove): selecting "a" by name removes both of its shards and nothing else. *)
 Example C34_nonvacuous_remove :
